@@ -196,10 +196,39 @@ pub fn check_value(ctx: &mut Ctx, kind: Kind, val: &RefVal, tid: &[u8; 12], all_
     }
 }
 
+/// An attribute object obtained by DECODING wire bytes (not by constructing it from a value), then
+/// serialised through every path: also for accepted encodings that are not the canonical one (a
+/// non-zero reserved byte in an address, reserved bits in an ERROR-CODE, ...).  The paths agree with
+/// each other, whatever they make of the non-canonical parts.
+pub fn check_decoded(ctx: &mut Ctx, kind: Kind, wire: &[u8], tid: &[u8; 12]) {
+    let w = || json!({"kind": "decoded-write", "attr": kind.name(), "wire": hex(wire), "tid": hex(tid)});
+    let raw = RawAttribute::new(AttributeType::new(kind.code()), wire);
+    match guard(|| imp::impl_decode(kind, &raw, tid)) {
+        Ok(Ok(d)) => {
+            let len = d.obj.length() as usize;
+            check_writer(ctx, kind.name(), d.obj.as_ref(), len, &w, false);
+            ctx.count("decoded-then-written");
+        }
+        Ok(Err(_)) => {}
+        Err(p) => ctx.violation("C12", "no-panic", "AttributeFromRaw::from_raw", kind.name(), w, "value or error".into(), format!("panic: {}", p.msg)),
+    }
+}
+
 pub fn check_raw(ctx: &mut Ctx, ty: u16, value: &[u8], all_short: bool) {
     let w = || json!({"kind": "raw-write", "raw_type": ty, "value": hex(value)});
     let raw = RawAttribute::new(AttributeType::new(ty), value);
     check_writer(ctx, "RawAttribute", &raw, value.len(), &w, all_short);
+    // the consuming conversions into bytes, of the borrowed and of the owned attribute
+    {
+        let v1: Vec<u8> = raw.clone().into();
+        let v2: Vec<u8> = Vec::from(raw.clone().into_owned());
+        let v3: Vec<u8> = RawAttribute::new_owned(AttributeType::new(ty), value.to_vec().into_boxed_slice()).into();
+        for (how, v) in [("Vec::from(borrowed)", v1), ("Vec::from(owned)", v2), ("Vec::from(new_owned)", v3)] {
+            if v != raw.to_bytes() {
+                ctx.violation("C12", "alternative-path-equals-raw", "From<RawAttribute> for Vec<u8>", how, w, hex(&raw.to_bytes()[..raw.to_bytes().len().min(48)]), hex(&v[..v.len().min(48)]));
+            }
+        }
+    }
     // the other ways a raw attribute comes into being: from a boxed value, from the data wrappers
     {
         let boxed = RawAttribute::new_owned(AttributeType::new(ty), value.to_vec().into_boxed_slice());
@@ -601,6 +630,25 @@ pub fn run(ctx: &mut Ctx) {
         let v = gen_refval(&mut rng, k);
         let t = crate::gen::msg::gen_tid(&mut rng);
         check_value(ctx, k, &v, &t, false);
+        // one value in eight also as decoded from its wire form, with the parts a receiver ignores
+        // set to something else than a sender writes
+        if i % 8 == 3 {
+            if let Some(mut wire) = ref_encode(k, &v, &t) {
+                check_decoded(ctx, k, &wire, &t);
+                if !wire.is_empty() {
+                    match k {
+                        Kind::XorMappedAddress | Kind::AlternateServer => wire[0] = rng.byte(),
+                        Kind::ErrorCode => {
+                            wire[0] = rng.byte();
+                            wire[1] = rng.byte();
+                            wire[2] |= rng.byte() & 0xf8;
+                        }
+                        _ => {}
+                    }
+                    check_decoded(ctx, k, &wire, &t);
+                }
+            }
+        }
         if i < 19 {
             ctx.sample("value", || json!({"attr": k.name(), "value": v.to_json()}));
         }
@@ -621,6 +669,7 @@ pub fn run(ctx: &mut Ctx) {
     ctx.require(&format!("writer:{}", k.name()), 50);
     }
     ctx.require("writer:raw", 500);
+    ctx.require("decoded-then-written", 10_000);
     ctx.require("short-destinations", 50_000);
     ctx.require("builders-compared", 5_000);
 }
@@ -634,6 +683,14 @@ pub fn replay(ctx: &mut Ctx, w: &Value) -> Result<(), String> {
             let mut tid = [0u8; 12];
             tid.copy_from_slice(&t[..12]);
             check_value(ctx, kind, &v, &tid, true);
+        }
+        Some("decoded-write") => {
+            let kind = Kind::from_name(w["attr"].as_str().ok_or("attr")?).ok_or("attr")?;
+            let v = crate::refimpl::crypto::unhex(w["wire"].as_str().ok_or("wire")?).ok_or("hex")?;
+            let t = crate::refimpl::crypto::unhex(w["tid"].as_str().unwrap_or("")).unwrap_or(vec![0; 12]);
+            let mut tid = [0u8; 12];
+            tid.copy_from_slice(&t[..12]);
+            check_decoded(ctx, kind, &v, &tid);
         }
         Some("raw-write") => {
             let v = crate::refimpl::crypto::unhex(w["value"].as_str().ok_or("value")?).ok_or("hex")?;
